@@ -9,11 +9,40 @@
 //!   utilities, Lagrange-basis SRS and commitments, `msm_specific`, `MSMKZG`,
 //!   `Rational` of `midnight_proofs`.
 //!
-//! Sensitivity (mutants applied in a scratch worktree, quick tier, seed 1):
-//! see the block at the end of this comment (filled in after the runs).
+//! Findings on the unchanged tree (each isolated in its own sub-check):
+//! * `msm.empty`: `G1Projective::multi_exp(&[], &[])` / `G2Projective::multi_exp`
+//!   panic (blst `p1_affines::from` indexes `points[0]`) — signatures
+//!   `G1Projective::multi_exp:empty:panic`, `G2Projective::multi_exp:empty:panic`;
+//! * `msm.identity-base-large`: `msm_best` with an identity base and n >= 8104
+//!   panics as soon as the identity term shares a bucket with another term
+//!   (`coordinates()` returns Some((0,0)) for the identity, the pseudo-point is
+//!   batch-added, `Affine::eval` then unwraps a point that is off the curve,
+//!   curves/src/msm.rs:167) — `msm_best:identity-base:n>=8104:panic`; reachable
+//!   through `msm_specific` for non-BLS-G1 curves
+//!   (`msm_specific:bn256:identity-base:n>=8104:panic`, sub `kzg.msm.identity-base-large`);
+//! * `domain.rotate.wrap`: `Polynomial::rotate` panics when |rotation| > n
+//!   (k = 1 with rotations +-3) — `Polynomial::rotate:|rotation|>n:panic`.
+//!
+//! Sensitivity (mutants applied in a scratch worktree, quick tier, seed 1; all
+//! reported as violations):
+//! * M1 `msm_serial`: `number_of_windows = max_byte_size*8/c` (no `+ 1`)
+//!   -> `*:msm_serial`, `*:msm_parallel` in msm.* and msm.large.* (all 4 curves);
+//! * M2 `msm_best`: `number_of_windows = NUM_BITS/c` (no `+ 1`)
+//!   -> `*:msm_best` in msm.large.* (all 4 curves);
+//! * M3 `batch_add`: equal-x always treated as doubling (sign ignored)
+//!   -> `*:msm_best:panic` in msm.large.* (opposite/repeated bases);
+//! * M4 `parallelize`: `split_pos = cutoff_chunk_id * base_chunk_size`
+//!   -> `parallelize`, `EvaluationDomain:lagrange_to_coeff`,
+//!   `divide_by_vanishing_poly`, `g_to_lagrange`, `KZG:commit`, ...;
+//! * M5 `l_i_range` without the rotation of the barycentric weight
+//!   -> `EvaluationDomain:l_i_range` (both fields);
+//! * M6 `recursive_butterfly_arithmetic`: twiddle index `i * twiddle_chunk`
+//!   -> `*:best_fft`, `*:best_fft(group)`, domain conversions, SRS, commitments;
+//! * M7 `divide_by_vanishing_poly` ignoring the chunk offset of `parallelize`
+//!   -> `EvaluationDomain:divide_by_vanishing_poly` (pools > 1).
 
 fn main() {
-    vpcore::main("C12", "exploration", (900, 7200), |p| {
+    vpcore::main("C12", "exploration", (1200, 14400), |p| {
         vp_alg::c12_msm::run(p);
         vp_plonk::c12_domain::run(p);
     });
